@@ -71,9 +71,12 @@ def build_cli():
     """the comrak binary itself (C16), from /repo's working tree, default features, no hooks."""
     with Lock("cargo"):
         env = dict(ENV)
-        env["CARGO_TARGET_DIR"] = os.path.join(CACHE, "target-cli")
+        # one target dir per source tree: cargo keys path packages relative to the workspace root, so two
+        # copies of the repository would share artifacts and an older main.rs would count as fresh
+        tdir = "target-cli" if REPO == "/repo" else "target-cli-" + hashlib.sha256(REPO.encode()).hexdigest()[:8]
+        env["CARGO_TARGET_DIR"] = os.path.join(CACHE, tdir)
         rc, out = run(["cargo", "build", "--offline", "--bin", "comrak"], cwd=REPO, timeout=1800, env=env)
-        return rc == 0, out, os.path.join(CACHE, "target-cli", "debug", "comrak")
+        return rc == 0, out, os.path.join(CACHE, tdir, "debug", "comrak")
 
 
 def run_translator():
